@@ -1,6 +1,6 @@
 //! C06 — the apply cache is transparent (E-HIST differential over cache capacities).
 
-use oxidd::{BooleanVecSet, FunctionSubst, Manager, ManagerRef, Subst};
+use oxidd::{BooleanFunction, BooleanVecSet, FunctionSubst, Manager, ManagerRef, Subst};
 use serde_json::json;
 
 use crate::dd::{Bcdd, Bdd, BoolKind, Zbdd};
@@ -34,9 +34,18 @@ pub fn shards(tier: &str) -> Vec<String> {
         v.extend(hist::shards_for(&["mtbddc"], &["n64c0t1k6", "n64c0t1"], 2));
         v.extend(hist::shards_for(&["mtbddk"], &["n64c0t1k4", "n64c0t1k5"], 2));
         v.extend(hist::shards_for(&["mtbddf"], &["n64c0t1"], 2));
+        v.extend(hist::shards_for(&["zbdds"], &["n64c0t1"], 2));
     } else {
         v.extend(hist::shards_for(&["mtbddc"], &["n64c0t1k6"], 1));
         v.extend(hist::shards_for(&["mtbddk"], &["n64c0t1k4"], 1));
+        v.extend(hist::shards_for(&["zbdds"], &["n64c0t1"], 1));
+    }
+    // memoisation histories of length two over restrict / quantification requests: the answer to the
+    // second request after the first one must be the handle obtained on an emptied cache
+    for k in ["bdd", "bcdd", "zbdd"] {
+        for o in if tier == "thorough" { vec!["012", "021", "102", "120", "201", "210"] } else { vec!["012", "120", "201"] } {
+            v.push(format!("pairs:{k}:{o}"));
+        }
     }
     // operations whose cache key has a numeric operand (substitution id, variable number)
     for k in ["bdd", "bcdd", "zbdd"] {
@@ -49,6 +58,16 @@ pub fn shards(tier: &str) -> Vec<String> {
 
 pub fn run(ctx: &mut Ctx) {
     let shard = ctx.shard.clone();
+    if let Some(rest) = shard.strip_prefix("pairs:") {
+        let (k, o) = rest.split_once(':').unwrap();
+        let order = model::parse_order(o);
+        match k {
+            "bdd" => request_pairs::<Bdd>(ctx, &order, &|w, f, c| <Bdd as super::c04::QuantKind>::q(w, f, c), true),
+            "bcdd" => request_pairs::<Bcdd>(ctx, &order, &|w, f, c| <Bcdd as super::c04::QuantKind>::q(w, f, c), true),
+            _ => request_pairs::<Zbdd>(ctx, &order, &|_, _, _| unreachable!(), false),
+        }
+        return;
+    }
     if let Some(rest) = shard.strip_prefix("numop:") {
         let (k, cap) = rest.split_once(':').unwrap();
         let cap: usize = cap.parse().unwrap();
@@ -64,7 +83,7 @@ pub fn run(ctx: &mut Ctx) {
 }
 
 /// All sequences of length d over {substitute(f_i, s_j) for 2 functions x 3 persistent
-/// substitution objects, gc}: a result memoised for one substitution must never be
+/// substitution objects (created on three different threads, two of which have exited), gc}: a result memoised for one substitution must never be
 /// served for another, whatever the cache capacity.
 fn numop_subst<K: BoolKind>(ctx: &mut Ctx, cap: usize)
 where
@@ -92,9 +111,12 @@ where
                 }
                 let mref = crate::dd::fresh::<K>(n, &[0, 1, 2], 256, cap, 1);
                 let fs: Vec<K::F> = ftabs.iter().map(|&t| K::build(&mref, t).unwrap()).collect();
+                // the first object is created on this thread, every further one on a thread of its own
+                // that has exited before the next one is created (ids must be unique across threads)
                 let substs: Vec<Subst<K::F>> = repl
                     .iter()
-                    .map(|r| {
+                    .enumerate()
+                    .map(|(si, r)| {
                         let mut vars = vec![];
                         let mut reps = vec![];
                         for (v, t) in r.iter().enumerate() {
@@ -103,7 +125,11 @@ where
                                 reps.push(K::build(&mref, *t).unwrap());
                             }
                         }
-                        Subst::new(vars, reps)
+                        if si == 0 {
+                            Subst::new(vars, reps)
+                        } else {
+                            std::thread::scope(|sc| sc.spawn(move || Subst::new(vars, reps)).join().unwrap())
+                        }
                     })
                     .collect();
                 for (i, &a) in acts.iter().enumerate() {
@@ -177,4 +203,77 @@ fn numop_zbdd(ctx: &mut Ctx, cap: usize) {
             }
         });
     }
+}
+
+/// Requests: the 26 restrictions by a non-empty cube and (BDD/BCDD) the 21 quantifications over a
+/// non-empty variable set. For every ordered pair (r1, r2) of distinct requests: empty the cache
+/// (gc), issue r1 for all 256 functions, issue r2 for all 256 functions (answers kept alive), empty
+/// the cache again, issue r2 once more: both answers must be the same handle for every function.
+fn request_pairs<K: BoolKind>(ctx: &mut Ctx, order: &[u32], q: &dyn Fn(u8, &K::F, &K::F) -> oxidd_core::util::AllocResult<K::F>, with_quant: bool) {
+    let n = 3u32;
+    let order = order.to_vec();
+    #[derive(Clone, Copy, PartialEq, Debug)]
+    enum Req {
+        Restrict(u32, u32),
+        Quant(u8, u32),
+    }
+    let mut reqs = vec![];
+    for pos in 0..8u32 {
+        for neg in 0..8u32 {
+            if pos & neg == 0 && (pos | neg) != 0 {
+                reqs.push(Req::Restrict(pos, neg));
+            }
+        }
+    }
+    if with_quant {
+        for w in 0..3u8 {
+            for vars in 1..8u32 {
+                reqs.push(Req::Quant(w, vars));
+            }
+        }
+    }
+    ctx.group("request pairs", |ctx| {
+        let tc = super::boolops::ThreadCfg { threads: 1, split: None };
+        let (mref, fns) = super::boolops::all_functions::<K>(n, &order, 1 << 14, tc);
+        let issue = |r: Req, f: &K::F| match r {
+            Req::Restrict(pos, neg) => f.restrict(&fns[model::cube_tab(pos, neg, n) as usize]),
+            Req::Quant(w, vars) => q(w, f, &fns[model::cube_tab(vars, 0, n) as usize]),
+        };
+        for &r1 in &reqs {
+            for &r2 in &reqs {
+                if r1 == r2 {
+                    continue;
+                }
+                ctx.count("executions", 1);
+                mref.with_manager_shared(|m| m.gc());
+                for f in fns.iter() {
+                    let _ = issue(r1, f);
+                }
+                let after: Vec<_> = fns.iter().map(|f| issue(r2, f)).collect();
+                mref.with_manager_shared(|m| m.gc());
+                for (t, f) in fns.iter().enumerate() {
+                    ctx.count("evaluations", 1);
+                    ctx.count("transitions", 2);
+                    if t != 0 && t != 255 {
+                        ctx.count("nontrivial", 1);
+                    }
+                    let fresh = issue(r2, f);
+                    let same = match (&after[t], &fresh) {
+                        (Ok(a), Ok(b)) => a == b,
+                        _ => false,
+                    };
+                    if !same {
+                        ctx.viol(
+                            attrs(&[("kind", K::NAME), ("class", "result_depends_on_cache"), ("last_action", "request_pair")]),
+                            json!({"kind": K::NAME, "order": model::order_str(&order), "function": t, "first_request": format!("{r1:?}"), "second_request": format!("{r2:?}"),
+                                   "after_first": after[t].as_ref().ok().map(|h| K::table(h)).map(|x| format!("{x:x?}")), "on_empty_cache": fresh.as_ref().ok().map(|h| K::table(h)).map(|x| format!("{x:x?}"))}),
+                            &format!("C06 {} order {}: {r2:?} of {t:#x} issued after {r1:?} (for all functions) returns {:x?}, on an emptied cache {:x?}", K::NAME, model::order_str(&order),
+                                after[t].as_ref().ok().map(|h| K::table(h)), fresh.as_ref().ok().map(|h| K::table(h))),
+                        );
+                    }
+                }
+            }
+        }
+        ctx.sample(|| json!({"kind": K::NAME, "order": model::order_str(&order), "first_request": "Restrict(5, 0)", "second_request": "Restrict(4, 0)"}));
+    });
 }
